@@ -3,15 +3,15 @@ import json, os
 from vlib import core
 
 THEOREMS = ['accept_iff', 'payloadOk_iff', 'initial_refines', 'silent_on_reject', 'reject_is_final', 'gated', 'served_after_negotiation',
-            'early_callers_fail', 'setup_failure_returns']
+            'early_callers_fail', 'setup_failure_returns', 'gate_sites']
 MODULES = ['LLRP.Model.ClientLTS', 'LLRP.Model.Initial', 'LLRP.Proofs.ClientLTS', 'LLRP.Proofs.ClientLTS2', 'LLRP.Proofs.ClientLive', 'LLRP.Oracle.LTSim', 'LLRP.Oracle.C08']
 RULE = ('initial: the real checkInitialMessage on a recorded connection for each of the 46 message types x ConnectionAttemptEvent status '
         '0..5, 255, 65535 (thorough 0..255) x {well-formed, empty, truncated stream, declared too long / too short, oversize claim, garbage}; '
         'for ReaderEventNotification also: no ConnectionAttemptEvent, additional events, every single-byte corruption and every prefix of the '
-        'good payload; EOF at every header offset, malformed header, silent peer with WithTimeout; compared: verdict, bytes written (0), ack queued. '
+        'good payload, damage that comes only after a well-formed success event (stray bytes after / inside the data parameter, a following parameter with an overrunning length, every corruption and cut of a second event); EOF at every header offset, malformed header, silent peer with WithTimeout; compared: verdict, bytes written (0), ack queued. '
         'lts: whole Connect against the scripted peer with the first message of every type (x payload ok/not) and callers issued before Connect / '
         'during the initial read / during each negotiation step (1.0.1 and 1.1 readers), negotiation failing at each step (wrong type, error status, '
-        'EOF, cut frame, local close), SendNoWait / Shutdown / cancelled early callers; compared: every frame the peer receives in order, '
+        'EOF, cut frame, local close), SendNoWait / Shutdown / cancelled early callers; 160 repetitions (thorough 1600) of failing negotiation with 8 parked callers and 6 callers spinning on a cancelled context (nothing of theirs may reach the wire, none may be accepted); compared: every frame the peer receives in order, '
         'each caller\'s result class, Connect\'s result. distinct = distinct request lines; non-trivial = all')
 ASSUMPTIONS = [
     'the pure model of checkInitialMessage (LLRP.Model.Initial) and the client LTS are hand-written; the payload decision uses the verified '
